@@ -258,6 +258,92 @@ theorem get_keeps_bindings (es : Entries) (k k' : Nat) : find? (cget es k).1 k' 
     · subst h; rw [find_cons_self]; exact hf.symm
     · rw [find_cons_ne _ _ _ _ h]; exact find_remove_ne _ _ _ h
 
+/-! ### Provenance: the cache never invents a session -/
+
+private theorem find_some_mem (es : Entries) (k x : Nat) (h : find? es k = some x) : (k, x) ∈ es := by
+  unfold find? at h
+  cases hf : List.find? (fun e => e.1 == k) es with
+  | none => simp [hf] at h
+  | some e =>
+    simp only [hf, Option.map_some, Option.some.injEq] at h
+    have hm := List.mem_of_find?_eq_some hf
+    have hk := List.find?_some hf
+    have hk' : e.1 = k := by simpa using hk
+    have : e = (k, x) := by cases e; simp_all
+    exact this ▸ hm
+
+private theorem mem_remove (es : Entries) (k : Nat) (p : Nat × Nat) (h : p ∈ remove es k) : p ∈ es :=
+  (List.mem_filter.mp h).1
+
+/-- one step: every entry afterwards was there before or is the pair just `Put`. -/
+private theorem step_provenance (cap : Nat) (es : Entries) (op : Op) (p : Nat × Nat)
+    (h : p ∈ (cstep cap es op).1) : p ∈ es ∨ op = .put p.1 (some p.2) := by
+  cases op with
+  | get k =>
+    simp only [cstep, cget] at h
+    cases hf : find? es k with
+    | none => simp only [hf] at h; exact .inl h
+    | some x =>
+      simp only [hf, List.mem_cons] at h
+      rcases h with rfl | h
+      · exact .inl (find_some_mem es k x hf)
+      · exact .inl (mem_remove es k p h)
+  | put k v =>
+    simp only [cstep, cput] at h
+    cases hf : find? es k with
+    | none =>
+      cases v with
+      | none => simp only [hf] at h; exact .inl h
+      | some x =>
+        simp only [hf] at h
+        split at h
+        · rcases List.mem_cons.mp h with rfl | h
+          · exact .inr rfl
+          · exact .inl h
+        · rcases List.mem_cons.mp h with rfl | h
+          · exact .inr rfl
+          · exact .inl (List.dropLast_subset es h)
+    | some y =>
+      cases v with
+      | none => simp only [hf] at h; exact .inl (mem_remove es k p h)
+      | some x =>
+        simp only [hf] at h
+        rcases List.mem_cons.mp h with rfl | h
+        · exact .inr rfl
+        · exact .inl (mem_remove es k p h)
+
+private theorem run_provenance (cap : Nat) (ops : List Op) (es : Entries) (p : Nat × Nat)
+    (h : p ∈ (run (cstep cap) es ops).1) : p ∈ es ∨ Op.put p.1 (some p.2) ∈ ops := by
+  induction ops generalizing es with
+  | nil => exact .inl h
+  | cons op ops ih =>
+    simp only [run] at h
+    rcases ih _ h with h1 | h1
+    · rcases step_provenance cap es op p h1 with h2 | h2
+      · exact .inl h2
+      · exact .inr (h2 ▸ List.mem_cons_self)
+    · exact .inr (List.mem_cons_of_mem _ h1)
+
+/-- **No invented sessions**: after any history from the empty cache, every `(key, session)` the
+cache holds was `Put` under exactly that key in the history — a `Get(k)` can only ever return a
+session that the caller stored under `k` (never one stored under another key, never a recycled
+element's old value). -/
+theorem entries_were_put (cap : Nat) (ops : List Op) (p : Nat × Nat)
+    (h : p ∈ (run (cstep cap) [] ops).1) : Op.put p.1 (some p.2) ∈ ops := by
+  rcases run_provenance cap ops [] p h with h | h
+  · cases h
+  · exact h
+
+theorem get_returns_a_put_value (cap : Nat) (ops : List Op) (k x : Nat)
+    (h : (cget (run (cstep cap) [] ops).1 k).2 = some x) : Op.put k (some x) ∈ ops := by
+  unfold cget at h
+  cases hf : find? (run (cstep cap) [] ops).1 k with
+  | none => simp [hf] at h
+  | some y =>
+    simp only [hf, Option.some.injEq] at h
+    subst h
+    exact entries_were_put cap ops (k, y) (find_some_mem _ k y hf)
+
 /-! the hypotheses of the no-eviction corollaries are met by concrete states, and the below-capacity
 guard is necessary: at capacity a new key does evict the oldest other key. -/
 example : find? (cput 3 [(1, 7), (2, 8)] 5 (some 9)) 2 = some 8 := by decide
